@@ -16,6 +16,16 @@ CHECKS = {
         level_note=('Trusted: Verus/Z3; assumed contracts for the fixed crate operations (verus/shim/fixed.rs, external_body); '
                     'f64->fixed conversions uninterpreted; log-interval clause decided by executing all 256 inputs (labelled enumerated).'),
     ),
+    'C18': dict(
+        engine='engine-v',
+        technique='Verus deductive verification of the verbatim-extracted OverlayClock against an affine-map specification (continuity, exact jump, returned time = reading)',
+        design_ref='DESIGN.md section 5, C18',
+        level_text=('OverlayClock::{time_from_underlying, set_frequency, step_clock} extracted verbatim and verified for every underlying clock '
+                    'reading in the PTP range, every shift, anchor and ppm: reading(r) = r + shift + fixed((r-last_sync)*ppm)/10^6; '
+                    'set_frequency is continuous at the instant of the call and returns that reading; step_clock moves the reading by '
+                    'exactly the requested offset and returns the new reading. One step is one call, so sequences follow by induction over the invariant.'),
+        level_note='Trusted: Verus/Z3; fixed-crate shim contracts; f64 operations uninterpreted; underlying clock within the PTP range.',
+    ),
     'C04': dict(
         engine='engine-k',
         technique='Kani/CBMC loop-free full-domain harnesses against an independent Clause-13 reader/writer; Verus loop invariant for the TLV set',
@@ -32,5 +42,5 @@ NOT_APPLICABLE = {
     'C02': 'closed-loop convergence and steady-state error of a floating-point Kalman servo over infinite measurement histories: asymptotic, float-valued, whole-history; neither Verus nor Kani has a usable theory',
     'C20': 'process-level liveness of a tokio TCP accept loop under client misbehaviour: async socket I/O and scheduling are outside any contract reachable by Verus/Kani',
     'C03': _later, 'C05': _later, 'C06': _later, 'C07': _later, 'C08': _later, 'C09': _later, 'C10': _later,
-    'C11': _later, 'C12': _later, 'C13': _later, 'C14': _later, 'C15': _later, 'C17': _later, 'C18': _later, 'C19': _later,
+    'C11': _later, 'C12': _later, 'C13': _later, 'C14': _later, 'C15': _later, 'C17': _later, 'C19': _later,
 }
